@@ -5,7 +5,12 @@
 //                        (S scalar after unescaping, B block scalar, A alias, N null, X = nullptr handed out by the YAML parser
 //                        after a scanner error: the dump stops at the first X, exactly where a client that looks at every node stops)
 //   load <hexpath>       the REAL BuildFile::load() with a delegate that accepts every tool / attribute (like `llbuild buildsystem
-//                        parse`) -> "OK|ERR <codes,..|.> <ntools> <ntargets> <nnodes> <ncommands> <hex default target>"
+//                        parse`) -> "OK|ERR <codes,..|.> <ntools> <ntargets> <nnodes> <ncommands> <hex default target> P<pos,..|.>"
+//                        one code and one position per error callback, in order: code = the message text looked up in a table
+//                        (99 = text not in the table; the check then ignores the code), position = offset of the token the
+//                        error is attached to ("-" = none).  The counts are those of the description (OK) or of what the
+//                        delegate had been handed when the load failed (ERR): lookupTool, loadedTarget (distinct names),
+//                        createNode, loadedCommand, loadedDefaultTarget.
 //   loadreal <hexpath>   the REAL BuildSystem::loadDescription() (built-in tools shell, phony, clang, mkdir, symlink, archive,
 //                        shared-library, stale-file-removal, swift-compiler; client "basic" version 0) -> "OK|ERR <nerrors> <first message hex>"
 //   ninja_load <hexpath> the REAL ninja::ManifestLoader; every file (main, include, subninja) is handed over in an EXACT-SIZE
@@ -200,9 +205,12 @@ class DDelegate : public BuildFileDelegate {
   llvm::StringMap<bool> interned;
 public:
   std::vector<int> codes;
+  std::vector<long> positions;          // offset of the token an error is attached to, -1 = the callback carried no position
   std::vector<std::string> other;
   StringRef buffer;
   bool badPosition = false;
+  // what has been delivered to the delegate so far (observable also when the load fails)
+  unsigned ntools = 0, nnodes = 0, ncommands = 0; llvm::StringMap<bool> targets; std::string defaultTarget;
   DDelegate() : fs(basic::createLocalFileSystem()) {}
   StringRef getInternedString(StringRef v) override { return interned.insert(std::make_pair(v, true)).first->getKey(); }
   basic::FileSystem& getFileSystem() override { return *fs; }
@@ -212,16 +220,17 @@ public:
     int c = bfCode(m);
     codes.push_back(c);
     if (c == 99) other.push_back(m);
+    positions.push_back(at.start && at.start >= buffer.begin() && at.start <= buffer.end() ? long(at.start - buffer.begin()) : -1);
     // a reported position must lie inside the buffer being parsed (the command-line tool walks from the start of the buffer to it)
     if (at.start && !(at.start >= buffer.begin() && at.start + at.length <= buffer.end())) badPosition = true;
   }
-  void cannotLoadDueToMultipleProducers(Node*, std::vector<Command*>) override { codes.push_back(98); }
+  void cannotLoadDueToMultipleProducers(Node*, std::vector<Command*>) override { codes.push_back(98); positions.push_back(-1); }
   bool configureClient(const ConfigureContext&, StringRef, uint32_t, const property_list_type&) override { return true; }
-  std::unique_ptr<Tool> lookupTool(StringRef name) override { return std::unique_ptr<Tool>(new DTool(name)); }
-  void loadedTarget(StringRef, const Target&) override {}
-  void loadedDefaultTarget(StringRef) override {}
-  void loadedCommand(StringRef, const Command&) override {}
-  std::unique_ptr<Node> createNode(StringRef name, bool) override { return std::unique_ptr<Node>(new DNode(name)); }
+  std::unique_ptr<Tool> lookupTool(StringRef name) override { ++ntools; return std::unique_ptr<Tool>(new DTool(name)); }
+  void loadedTarget(StringRef name, const Target&) override { targets[name] = true; }
+  void loadedDefaultTarget(StringRef t) override { defaultTarget = t.str(); }
+  void loadedCommand(StringRef, const Command&) override { ++ncommands; }
+  std::unique_ptr<Node> createNode(StringRef name, bool) override { ++nnodes; return std::unique_ptr<Node>(new DNode(name)); }
 };
 }
 
@@ -234,11 +243,19 @@ static std::string doLoad(const std::string& path) {
     std::string codes;
     for (size_t i = 0; i < d.codes.size(); i++) { if (i) codes += ","; codes += std::to_string(d.codes[i]); }
     if (codes.empty()) codes = ".";
+    // counts: of the description when there is one, else of what the delegate was handed before the failure
+    std::string observed = std::to_string(d.ntools) + " " + std::to_string(d.targets.size()) + " " + std::to_string(d.nnodes) + " " +
+                           std::to_string(d.ncommands) + " " + hex(d.defaultTarget);
+    std::string pos = "P";
+    for (size_t i = 0; i < d.positions.size(); i++) { if (i) pos += ","; pos += d.positions[i] < 0 ? std::string("-") : std::to_string(d.positions[i]); }
+    if (d.positions.empty()) pos += ".";
     if (desc) {
-      out = "OK " + codes + " " + std::to_string(desc->getTools().size()) + " " + std::to_string(desc->getTargets().size()) + " " +
+      std::string sizes = std::to_string(desc->getTools().size()) + " " + std::to_string(desc->getTargets().size()) + " " +
             std::to_string(desc->getNodes().size()) + " " + std::to_string(desc->getCommands().size()) + " " + hex(desc->getDefaultTarget());
+      out = "OK " + codes + " " + sizes + " " + pos;
+      if (sizes != observed) out += " OBSERVED:" + std::to_string(d.ntools) + "/" + std::to_string(d.targets.size()) + "/" + std::to_string(d.nnodes) + "/" + std::to_string(d.ncommands);
     } else {
-      out = "ERR " + codes;
+      out = "ERR " + codes + " " + observed + " " + pos;
     }
     if (d.badPosition) out += " BADPOS";
     for (auto& m : d.other) out += " OTHER:" + hex(m);
